@@ -78,8 +78,10 @@ Adjust(s, chk) ==
                THEN ChangeClasses(s1, s1.bounds[1], s1.bounds[Len(s1.bounds)], s1.minBins, FALSE)
         ELSE IF chk /\ RLt(RMul(RI(10), s1.bounds[1]), s1.bounds[Len(s1.bounds)])
                THEN IF Populated(s1) = {} THEN s1
-                    ELSE IF (s1.minBins \div 2) + 1 > s1.bins THEN [s1 EXCEPT !.err = "IndexError"]
-                    ELSE IF RLt(MaxOver(Mid(s1.bounds), Populated(s1)), Mid(s1.bounds)[(s1.minBins \div 2) + 1])
+                    \* (the reference class is minBins/2, kept inside the grid: a grid may hold fewer classes than minBins -- fix c0cd1b2;
+                    \*  before it the code raised an IndexError there)
+                    ELSE IF RLt(MaxOver(Mid(s1.bounds), Populated(s1)),
+                                Mid(s1.bounds)[IF (s1.minBins \div 2) + 1 > s1.bins THEN s1.bins ELSE (s1.minBins \div 2) + 1])
                       THEN ChangeClasses(s1, s1.bounds[1],
                                          MaxOver([i \in 1..s1.bins |-> s1.bounds[i + 1]], Populated(s1)), s1.maxBins, FALSE)
                       ELSE s1
